@@ -115,6 +115,10 @@ def mem_history(rec, w):
 
 # --------------------------------------------------------------- the machine: real provider + integer model
 def _applicable(cls, model, ev):
+    if model is None:  # the count file was removed: nothing further is defined
+        return False
+    if ev in ("X", "D"):
+        return cls != "mem"
     if ev in ("C", "R"):
         if cls == "mem":
             return False
@@ -194,6 +198,21 @@ class Machine:
                 return ("current/fresh-instance-raised", repr(e), self.model)
             if v != self.model:
                 return ("current/fresh-instance-wrong-value", v, self.model)
+        elif ev == "X":
+            # environment: the count file is replaced by another file holding the same count (restored from a backup, rewritten
+            # by a tool): the state lives in "the file" of that name, whichever instance or handle wrote it last
+            tmpf = Path(str(self.path) + ".new")
+            tmpf.write_text(f"{self.model}\n")
+            os.replace(tmpf, self.path)
+        elif ev == "D":
+            # environment: the count file is removed - every entry point reports the missing file, also on a used instance
+            self.path.unlink()
+            for name, fn in (("next", lambda: next(self.inst)), ("current", self.inst.current), ("get_and_increment", self.inst.get_and_increment)):
+                e, v = self._try(fn)
+                if not isinstance(e, FileNotFoundError):
+                    return (f"missing/not-reported-by-{name}", repr(e) if e is not None else v, "FileNotFoundError")
+            self.model = None
+            return None
         elif ev[0] == "W":
             w2 = int(ev[1:])
 
@@ -639,6 +658,13 @@ def shards(tier):
     for w in (1, 2, 3):
         for first in set_ev:
             items.append({"kind": "stateless", "cls": "file", "w": w, "first": first, "events": set_ev, "depth": 5 if q else 6})
+    # environment events: the file replaced by one with the same count (X), the file removed (D, ends the history)
+    env_ev = list("NGCRXD")
+    for w in (1, 2):
+        for first in env_ev:
+            items.append({"kind": "stateless", "cls": "file", "w": w, "first": first, "events": env_ev, "depth": 5 if q else 6})
+    for first in env_ev:
+        items.append({"kind": "stateless", "cls": "pus", "w": 14, "first": first, "events": env_ev, "depth": 4 if q else 5})
     pus_ev = ["N", "G", "C", "R", "W1", "W3", "W14"]
     for first in pus_ev:
         items.append({"kind": "stateless", "cls": "pus", "w": 14, "first": first, "events": pus_ev, "depth": 5 if q else 6})
